@@ -30,6 +30,8 @@ def run(c):
         hs = hs + c09.histories_simulated(c, 5, 300)
     else:
         hs = hs + c09.histories_simulated(c, 4, 6000) + c09.histories_simulated(c, 8, 3000)
+    # ... and every database that was decoded from a stream and then edited (MC_SigDb!MCPresets: repeated entries in a list / across lists)
+    hs = hs + c09.histories_exhaustive(c, 2, load=True) + c09.histories_simulated(c, 4, 150 if c.quick else 3000, load=True)
     scen = []
     for i, h in enumerate(hs):
         ops = []
@@ -37,7 +39,7 @@ def run(c):
             ops.append({k: v for k, v in op.items() if k != "res"})
             if op["op"] != "recode":
                 ops.append({"op": "recode", "t": "-", "o": "-", "d": "-"})
-        scen.append({"sc": i, "ops": ops})
+        scen.append(c09.with_presets({"sc": i, "ops": ops}))
     res, dth = c.run_worker("sigdb", scen, timeout=1800)
     events, owner = [], []
     for s in scen:
